@@ -1,0 +1,15 @@
+//go:build verif
+
+package analyzer
+
+// VerifReportCBORisk exposes CBOAnalyzer.assessRiskLevel for the given thresholds.
+func VerifReportCBORisk(cbo, low, medium int) string {
+	a := NewCBOAnalyzer(&CBOOptions{LowThreshold: low, MediumThreshold: medium})
+	return a.assessRiskLevel(cbo)
+}
+
+// VerifReportLCOMRisk exposes LCOMAnalyzer.assessRiskLevel for the given thresholds.
+func VerifReportLCOMRisk(lcom, low, medium int) string {
+	a := NewLCOMAnalyzer(&LCOMOptions{LowThreshold: low, MediumThreshold: medium})
+	return a.assessRiskLevel(lcom)
+}
